@@ -1315,6 +1315,33 @@ def install(ex):
             return
         raise Unsupported("starts_with on %r %r" % (a, b))
 
+    @model(r"^core::str::<impl str>::(trim|trim_end|trim_start)$", "str::trim / trim_end / trim_start on character-list strings: one fork per number of white-space characters removed at each end")
+    def str_trim(ex, callee, args, rt):
+        a = ex.deref(args[0])
+        if not isinstance(a, CharStr):
+            raise Unsupported("trim on %r" % (a,))
+        ws = lambda c: z3.Or(z3.And(c >= 9, c <= 13), c == 32, c == 0x85, c == 0xA0, c == 0x1680, z3.And(c >= 0x2000, c <= 0x200A), c == 0x2028, c == 0x2029, c == 0x202F, c == 0x205F, c == 0x3000)
+        name = strip_turbofish(callee).split("::")[-1]
+        chars = list(a.chars)
+
+        def cuts(seq, on):
+            # alternatives: exactly k white-space characters at the front of seq are removed
+            if not on:
+                return [(z3.BoolVal(True), 0)]
+            out = []
+            for k in range(len(seq) + 1):
+                c = [ws(x) for x in seq[:k]]
+                if k < len(seq):
+                    c.append(z3.Not(ws(seq[k])))
+                out.append((z3.And(*c) if c else z3.BoolVal(True), k))
+            return out
+        front = cuts(chars, name in ("trim", "trim_start"))
+        for i in ex.branches([c for c, _ in front]):
+            rest = chars[front[i][1]:]
+            back = cuts(rest[::-1], name in ("trim", "trim_end"))
+            for j in ex.branches([c for c, _ in back]):
+                yield CharStr(rest[:len(rest) - back[j][1]])
+
     @model(r"^core::str::<impl str>::(strip_prefix|trim_start_matches)$", "str::strip_prefix (once) / trim_start_matches (repeatedly, up to 3 times in the model)")
     def str_strip(ex, callee, args, rt):
         a, b = ex.deref(args[0]), ex.deref(args[1])
